@@ -491,6 +491,9 @@ class FuncTr:
                     defined.add(nm)
                 return f"let '({', '.join(names)}) := {rhs} in{ind}{self.block(rest, final, defined)}"
             name = self.target_name(t)
+            if isinstance(s.value, ast.Constant) and isinstance(s.value.value, str):
+                self.vtypes[name] = "str"          # message strings: only ever passed to warnings.warn / print
+                return self.block(rest, final, defined)
             rhs = self.expr(s.value)
             self.note_defined(name, s.value)
             defined.add(name)
@@ -545,7 +548,7 @@ class FuncTr:
             a_names = set(assigned_names(s.body))
             b_names = set(assigned_names(s.orelse))
             for nm in names:
-                if nm not in defined and not (nm in a_names and nm in b_names):
+                if nm not in defined and not nm.startswith('self_') and not (nm in a_names and nm in b_names):
                     pre += f"let {nm} := dflt in{ind}"
                     self.notes.append(f"{self.coqname}: `{nm}` may be unbound at a join; defaulted")
                     d1.add(nm); d2.add(nm)
@@ -565,7 +568,7 @@ class FuncTr:
             state = [n for n in assigned_names(s.body) if n not in tnames]
             pre = ""
             for nm in state:
-                if nm not in defined:
+                if nm not in defined and not nm.startswith('self_'):
                     pre += f"let {nm} := dflt in{ind}"
                     self.notes.append(f"{self.coqname}: `{nm}` assigned only inside a loop; initialised with a default")
                     defined.add(nm)
@@ -590,7 +593,14 @@ class FuncTr:
         return self.tuple_of([cname(r.replace(".", "_")) for r in self.returns])
 
     def translate(self):
-        defined = set(self.params) | set(self.declared_extra)
+        if self.declared_extra_strict:
+            for pth in self.declared_extra_strict:
+                nm = cname(pth.replace(".", "_"))
+                if nm not in self.vtypes:
+                    self.vtypes[nm] = self.ptypes.get(nm, "Q")
+                if nm not in self.selfattrs:
+                    self.selfattrs.append(nm)
+        defined = set(self.params) | set(self.declared_extra) | set(self.selfattrs)
         body_stmts = list(self.fn.body)
         # pre-mark declared returns (self attributes mutated) as defined inputs
         if self.returns:
@@ -800,6 +810,17 @@ def build_spec(g):
     g.func("ground_loads.py", "monthdays")
     g.func("ground_loads.py", "first_month_hour", ptypes={"years": "list Q"})
     g.func("ground_loads.py", "last_month_hour", ptypes={"years": "list Q"})
+    # ---- the hybrid load sequence (ground_loads.py), the whole method ----
+    lq = "list Q"
+    g.func("ground_loads.py", "HybridLoad.process_month_loads", coqname="process_month_loads", rettype="tuple",
+           returns=["self.load", "self.hour"],
+           ptypes={k: lq for k in ["self_load", "self_hour", "self_years", "self_monthly_cl", "self_monthly_hl", "self_monthly_peak_cl",
+                                    "self_monthly_peak_hl", "self_monthly_peak_cl_duration", "self_monthly_peak_hl_duration",
+                                    "self_monthly_peak_cl_day", "self_monthly_peak_hl_day", "self_step_func_load"]},
+           extra_strict=["self.load", "self.hour", "self.start_month", "self.years", "self.end_month", "self.monthly_cl", "self.monthly_hl",
+                         "self.monthly_peak_cl", "self.monthly_peak_hl", "self.monthly_peak_cl_duration", "self.monthly_peak_hl_duration",
+                         "self.monthly_peak_cl_day", "self.monthly_peak_hl_day", "self.peak_retain_start", "self.peak_retain_end",
+                         "self.step_func_load"])
     # ---- output time conversion (output.py) ----
     g.func("output.py", "OutputManager.hours_to_month", coqname="hours_to_month")
     g.func("output.py", "OutputManager.ghe_time_convert", coqname="ghe_time_convert", rettype="tuple")
